@@ -208,7 +208,8 @@ def run(ctx):
         if st != "ok":
             failures.append(("harness_error", r[:300], dict(bytes=job[0].hex())))
         elif r[0] == "escape":
-            failures.append(("file:" + r[1], "invalid UTF-8 in a file: " + r[1], dict(bytes_hex=job[0].hex(), std=job[1])))
+            # the escape is keyed like any other: the inserted byte may simply be '(' (the channel matters only for decoding errors)
+            failures.append((r[1], "file with inserted bytes: " + r[1], dict(bytes_hex=job[0].hex(), std=job[1])))
     e2e = dict(cases=len(jobs) + len(fjobs), distinct=len(set(j[1] for j in jobs)), failures=failures,
                outcome_histogram=hist,
                rule="1-3 token/character/line mutations (delete, duplicate, swap, replace by punctuation/keywords, "
